@@ -180,12 +180,63 @@ fn check_consts(n: usize) -> Verdict {
     }
 }
 
+/// Non-canonical Esops (negative literals, repeated cubes) -> Lut, on multi-word sizes.
+fn check_to_lut(n: usize, k: &Key) -> Verdict {
+    let f = denote(n, k);
+    match guarded(|| {
+        let e = esop_of(n, k);
+        check_esop("from_cubes", n, &e, &f)
+    }) {
+        Ok(v) => v,
+        Err(p) => fail("Esop -> Lut returns", p),
+    }
+}
+
+/// A long chain `acc = acc ^ Esop::from(f_k)` with functions recurring (multiplicities 2, 3, ...),
+/// checked after every step.
+fn check_chain(n: usize, fs: &[TT]) -> Verdict {
+    let r = guarded(|| {
+        let mut acc = Esop::zero(n);
+        let mut model = TT::zero(n);
+        for (k, f) in fs.iter().enumerate() {
+            let e = Esop::from(&Lut::from_blocks(n, &f.w));
+            acc = if k % 2 == 0 { &acc ^ &e } else { acc ^ e };
+            model = TT::pointwise(&model, f, |a, b| a != b);
+            let l = Lut::from(&acc);
+            if l.blocks() != &model.w[..] {
+                return fail(format!("after {} xor steps ({} cubes) the chain denotes [{}...]", k + 1, acc.num_cubes(), fmt_words(&model.w[..1])), format!("Lut::from gives [{}...]", fmt_words(&l.blocks()[..1])));
+            }
+            for m in [0usize, 1, nbits(n) / 2, nbits(n) - 1, 77 % nbits(n), 300 % nbits(n)] {
+                if acc.value(m) != model.get(m) {
+                    return fail(format!("after {} xor steps value({}) = {}", k + 1, m, model.get(m)), format!("{}", acc.value(m)));
+                }
+            }
+            if (acc.is_zero() && !model.is_const(false)) || (acc.is_one() && !model.is_const(true)) {
+                return fail("is_zero/is_one only for the constants", format!("after {} steps", k + 1));
+            }
+        }
+        Ok(())
+    });
+    match r {
+        Ok(v) => v,
+        Err(p) => fail("long Esop chain returns", p),
+    }
+}
+
 pub fn replay(case: &Case) -> Result<Verdict, String> {
     let n = case.usize("n")?;
     Ok(match case.get("kind")? {
         "fromlut" => check_from_lut(&TT::from_words(n, &case.words("t")?).ok_or("t malformed")?),
         "ops" => check_ops(n, &parse_key(case.get("a")?)?, &parse_key(case.get("b")?)?),
         "consts" => check_consts(n),
+        "tolut" => check_to_lut(n, &parse_key(case.get("a")?)?),
+        "chain" => {
+            let mut fs = Vec::new();
+            for part in case.get("fs")?.split(',').filter(|x| !x.is_empty()) {
+                fs.push(TT::from_words(n, &crate::engine::parse_words(part)?).ok_or("malformed table")?);
+            }
+            check_chain(n, &fs)
+        }
         k => return Err(format!("unknown kind {}", k)),
     })
 }
@@ -264,6 +315,66 @@ pub fn run(run: &Run) {
             }
         });
     }
+    for n in 7..=10usize {
+        // cubes with literals on the word-selecting variables (>= 6), both polarities, with and without a low literal
+        let hi: Vec<u32> = (6..n as u32).collect();
+        let mut cubes: Vec<(u32, u32)> = vec![(0, 0), (1, 0), (0, 2)];
+        for (i, a) in hi.iter().enumerate() {
+            for pa in [true, false] {
+                let la = if pa { (1u32 << a, 0u32) } else { (0u32, 1u32 << a) };
+                cubes.push(la);
+                cubes.push((la.0 | 1, la.1 | 4));
+                for b in hi.iter().skip(i + 1) {
+                    for pb in [true, false] {
+                        let lb = if pb { (1u32 << b, 0u32) } else { (0u32, 1u32 << b) };
+                        cubes.push((la.0 | lb.0, la.1 | lb.1));
+                        cubes.push((la.0 | lb.0 | 2, la.1 | lb.1 | 1));
+                    }
+                }
+            }
+        }
+        if n >= 9 {
+            cubes.push((1, (1 << 6) | (1 << 7) | (1 << 8)));
+            cubes.push((0, ((1u32 << n) - 1) & !0x3f));
+        }
+        cubes.sort();
+        cubes.dedup();
+        let nc = cubes.len() as u64;
+        let maxlen: u32 = if n <= 8 { 2 } else { 1 };
+        let total = 1 + nc + if maxlen >= 2 { nc * nc } else { 0 } + nc;
+        run.section(&format!("NON-CANONICAL Esop -> Lut n={}: from_cubes lists (<= {} cubes, plus each cube xor the parity form) with negative literals on variables >= 6", n, maxlen), false, "cube alphabet over the word-selecting variables; value on every assignment, Lut::from, flags", total, 16, |r, l| {
+            for idx in r {
+                let k: Key = if idx == 0 {
+                    vec![]
+                } else if idx <= nc {
+                    vec![cubes[(idx - 1) as usize]]
+                } else if maxlen >= 2 && idx <= nc + nc * nc {
+                    let j = idx - 1 - nc;
+                    vec![cubes[(j / nc) as usize], cubes[(j % nc) as usize]]
+                } else {
+                    // a cube together with the canonical form of the parity function
+                    let j = (idx - 1 - nc - if maxlen >= 2 { nc * nc } else { 0 }) as usize;
+                    let mut k: Key = (0..n as u32).map(|v| (1u32 << v, 0u32)).collect();
+                    k.push(cubes[j]);
+                    k
+                };
+                l.states += 1;
+                rec(l, check_to_lut(n, &k), format!("{:02}|tolut|{}", n, show_key(&k)), "to_lut", format!("kind=tolut;n={};a={}", n, show_key(&k)), true, idx);
+            }
+        });
+    }
+    run.section_seq("CHAINS n=8,10: acc = acc ^ Esop::from(f_k) over 12..16 steps with recurring functions (thousands of cubes)", false, "alphabet functions incl. parity/majority/irregular tables, each recurring up to 3 times", |l| {
+        for n in [8usize, 10] {
+            let pats = alpha::word_patterns(n, run.seed, 0);
+            let named = alpha::named(n);
+            let base: Vec<TT> = vec![pats[pats.len() - 1].clone(), named[n + 2].clone(), pats[pats.len() - 2].clone(), named[n + 5].clone(), pats[4].clone()];
+            let order = [0usize, 1, 2, 0, 3, 1, 4, 0, 2, 3, 1, 4, 2, 0, 3, 4];
+            let fs: Vec<TT> = order.iter().take(if n == 8 { 16 } else { 12 }).map(|i| base[*i].clone()).collect();
+            l.states += fs.len() as u64;
+            let case = format!("kind=chain;n={};fs={}", n, fs.iter().map(|f| fmt_words(&f.w)).collect::<Vec<_>>().join(","));
+            rec(l, check_chain(n, &fs), format!("{:02}|chain", n), "long-chain", case, true, n as u64);
+        }
+    });
     run.section_seq("CONSTANTS n=0..10 and canonical forms XORed together (n<=4 alphabet)", false, "zero/one/literals; Esop::from(f) ^ Esop::from(g) for alphabet pairs", |l| {
         for n in 0..=10usize {
             l.states += 1;
